@@ -3,8 +3,9 @@
 Every case creates a *fresh* reactor instance (select / poll / epoll / asyncio),
 listens on 127.0.0.1:0, connects, lets one side (the sender) perform a generated
 write schedule (write / writeSequence / delayed continuation) through shrunken
-socket buffers, and ends the connection in one of six ways (sender or receiver,
-loseConnection / half-close / abortConnection).  The protocols only record
+socket buffers, and ends the connection in one of seven ways (sender or receiver,
+loseConnection / half-close / abortConnection, or both sides streaming and
+half-closing).  The protocols only record
 events; the oracle runs after the reactor has stopped and is insensitive to the
 order in which the OS scheduled anything.
 
@@ -14,8 +15,11 @@ stops the reactor, and a SIGALRM backstop ends the process with status 2.
 import hashlib
 import os
 import signal
+import fcntl
 import socket
+import struct
 import sys
+import termios
 
 from hypothesis import strategies as st
 
@@ -24,8 +28,8 @@ from lib.core import hyp_run, enumerate_run, HarnessError
 META = dict(
     property="C15",
     level="exploration",
-    technique="generated write schedules over real loopback TCP connections on fresh SelectReactor / PollReactor / EPollReactor / AsyncioSelectorReactor instances with shrunken SO_SNDBUF/SO_RCVBUF, six close scenarios, order-insensitive event-log oracle",
-    level_text="A fixed matrix (4 reactors x 6 close scenarios x 4 traffic shapes) plus Hypothesis schedules per reactor (writes 0..4 MiB in thorough, 0..1 MiB in quick; bursts, writeSequence, delayed writes, receiver pauses). The OS schedules the sockets; only invariants that hold under every schedule are asserted. Sampled; the weakest kind of claim in this suite.",
+    technique="generated write schedules over real loopback TCP connections on fresh SelectReactor / PollReactor / EPollReactor / AsyncioSelectorReactor instances with shrunken SO_SNDBUF/SO_RCVBUF, seven close scenarios, order-insensitive event-log oracle plus an idle-state stall probe",
+    level_text="A fixed matrix (4 reactors x 7 close scenarios x 6 traffic shapes) plus Hypothesis schedules per reactor (writes 0..4 MiB in thorough, 0..1 MiB in quick; bursts, writeSequence, delayed writes, receiver pauses). The OS schedules the sockets; only invariants that hold under every schedule are asserted. Sampled; the weakest kind of claim in this suite.",
     level_note="Trusted: the Linux loopback TCP stack, the event-recording protocols. Timing is not controlled: cases are not bit-for-bit reproducible, the oracle is. Hangs are reported as harness errors, so a defect whose only symptom is a stall is not detected as a violation.",
     design_ref="§5 C15",
     rule="case = (reactor, who sends, socket buffer sizes, write schedule, close scenario, receiver pause, half-close interface flags). non-trivial = the sender wrote more than its (shrunken) socket send buffer in one burst, so user-space buffering and partial writes were needed; distinct by the whole case.",
@@ -33,7 +37,8 @@ META = dict(
 
 REACTORS = ["select", "poll", "epoll", "asyncio"]
 SCENARIOS = ["sender-lose", "sender-half", "sender-abort",
-             "receiver-lose-after-all", "receiver-lose-early", "receiver-abort-early"]
+             "receiver-lose-after-all", "receiver-lose-early", "receiver-abort-early", "duplex-half"]
+SEND_LIMIT = 128 * 1024      # tcp.Connection sends at most this much per doWrite pass
 
 PLEN = 5 * 1024 * 1024
 _PAT = []
@@ -42,7 +47,7 @@ _PAT = []
 def _patterns():
     if not _PAT:
         _PAT.append(hashlib.shake_256(b"verif C15 stream").digest(PLEN))
-        _PAT.append(hashlib.shake_256(b"verif C15 reply").digest(1 << 16))
+        _PAT.append(hashlib.shake_256(b"verif C15 reply").digest(2 * 1024 * 1024))
     return _PAT
 
 
@@ -167,6 +172,7 @@ def _make_protocols(h):
             if L.lost:
                 L.events_after_lost.append("writeConnectionLost")
             L.wcl += 1
+            h.on_write_closed(self)
 
     return Base, Half
 
@@ -187,6 +193,10 @@ class _H:
         self.max_burst = 0
         self.sndbuf_actual = None
         self.n_lost = 0
+        self.aborted = set()      # roles that called abortConnection
+        self.stall = None         # set by the idle probe
+        self.probes = 0
+        self.queued_behind_aligned = 0
 
     # -- callbacks from the protocols (inside the reactor: record, never raise) --
     def on_made(self, p):
@@ -206,6 +216,10 @@ class _H:
                 sk.setsockopt(socket.SOL_SOCKET, socket.SO_RCVBUF, case["rcvbuf"])
             if case["scenario"] in ("receiver-lose-early", "receiver-abort-early", "receiver-lose-after-all"):
                 self.maybe_receiver_close(p)
+            if case["scenario"] == "duplex-half":
+                # the receiver has a stream of its own: queue it all, then finish its sending direction
+                self.write_reply(p)
+                p.transport.loseWriteConnection()
 
     def run_steps(self):
         p = self.protos["sender"]
@@ -213,6 +227,8 @@ class _H:
             s = self.steps.pop(0)
             if self.logs["sender"].lost:
                 return
+            if s[0] in ("w", "ws"):
+                self.note_alignment(p.transport)
             if s[0] == "w":
                 n = min(s[1], PLEN - self.written)
                 p.transport.write(self.pat[0][self.written:self.written + n])
@@ -236,14 +252,14 @@ class _H:
         sc = self.case["scenario"]
         if sc == "sender-lose":
             p.transport.loseConnection()
-        elif sc == "sender-half":
+        elif sc in ("sender-half", "duplex-half"):
             p.transport.loseWriteConnection()
         elif sc == "sender-abort":
             d = self.case["abort_delay"]
             if d < 0:
-                p.transport.abortConnection()
+                self.abort("sender")
             else:
-                self.reactor.callLater(d / 1000.0, p.transport.abortConnection)
+                self.reactor.callLater(d / 1000.0, self.abort, "sender")
 
     def on_data(self, p):
         case = self.case
@@ -272,20 +288,84 @@ class _H:
             p.transport.loseConnection()
         elif sc == "receiver-abort-early" and p.log.got >= min(self.case["early"], self.total):
             self.closed_by_receiver = True
+            self.abort("receiver")
+
+    def abort(self, role):
+        p = self.protos.get(role)
+        if p is not None and not p.log.lost:
+            self.aborted.add(role)
             p.transport.abortConnection()
+
+    def note_alignment(self, t):
+        """Bookkeeping only (never part of the oracle): is this write queued behind an
+        unsent remainder that is a whole number of SEND_LIMIT-sized passes?"""
+        try:
+            rest = len(t.dataBuffer) - t.offset
+        except AttributeError:
+            return
+        if rest >= SEND_LIMIT and rest % SEND_LIMIT == 0:
+            self.queued_behind_aligned += 1
+
+    def write_reply(self, p):
+        for n in self.case["reply"]:
+            n = min(n, len(self.pat[1]) - self.reply_written)
+            p.transport.write(self.pat[1][self.reply_written:self.reply_written + n])
+            self.reply_written += n
 
     def on_read_closed(self, p):
         """IHalfCloseableProtocol.readConnectionLost."""
+        if self.case["scenario"] == "duplex-half":
+            # nothing is written or closed here: whatever this side still has queued must
+            # go out by itself.  Close only when both directions are finished.
+            if p.log.wcl:
+                p.transport.loseConnection()
+            return
         if p.role == "receiver":
             # the peer finished sending.  After a half-close it still listens: answer, then close
-            for n in (self.case["reply"] if self.case["scenario"] == "sender-half" else ()):
-                n = min(n, len(self.pat[1]) - self.reply_written)
-                p.transport.write(self.pat[1][self.reply_written:self.reply_written + n])
-                self.reply_written += n
+            if self.case["scenario"] == "sender-half":
+                self.write_reply(p)
             p.transport.loseConnection()
         else:
             # sender: both directions are finished now
             p.transport.loseConnection()
+
+    def on_write_closed(self, p):
+        """IHalfCloseableProtocol.writeConnectionLost."""
+        if self.case["scenario"] == "duplex-half" and p.log.rcl and not p.log.lost:
+            p.transport.loseConnection()
+
+    # -- idle probe: a stall is a *state*, not a duration -----------------------
+    def probe(self):
+        """Runs as a timed call, i.e. between reactor iterations.  A direction is
+        stalled when: both protocols are connected; the application has no action
+        pending for it; bytes written have not been received; nothing of them is in
+        the kernel (send queue of the writer and receive queue of the reader are
+        empty, so they sit in the writer's user-space buffer); the reader is
+        registered for reading (not paused / closing); and the writer is NOT
+        registered for writing and did not abort.  Nothing can ever move those
+        bytes: the state is permanent, however long one waits."""
+        if getattr(self, "finishing", False) or self.stall is not None:
+            return
+        self.probes += 1
+        S, R = self.protos.get("sender"), self.protos.get("receiver")
+        if S is not None and R is not None and not S.log.lost and not R.log.lost:
+            for w, r, wrote, ready in ((S, R, self.written, self.schedule_done),
+                                       (R, S, self.reply_written, True)):
+                if not ready or wrote <= r.log.got or w.role in self.aborted:
+                    continue
+                try:
+                    wt, rt = w.transport, r.transport
+                    if wt in self.reactor.getWriters() or rt not in self.reactor.getReaders():
+                        continue
+                    outq = _ioctl_int(wt.getHandle(), termios.TIOCOUTQ)
+                    inq = _ioctl_int(rt.getHandle(), termios.FIONREAD)
+                except (OSError, AttributeError):
+                    continue
+                if outq == 0 and inq == 0:
+                    self.stall = dict(writer=w.role, written=wrote, received=r.log.got)
+                    self.reactor.stop()
+                    return
+        self.reactor.callLater(0.004, self.probe)
 
     def on_lost(self, p):
         self.n_lost += 1
@@ -333,6 +413,7 @@ class _H:
             self.port = reactor.listenTCP(0, sf, interface="127.0.0.1", backlog=5)
             reactor.connectTCP("127.0.0.1", self.port.getHost().port, cf, timeout=wd_s)
             wd = reactor.callLater(wd_s, self.watchdog)
+            reactor.callLater(0.004, self.probe)
             reactor.run(installSignalHandlers=False)
             if wd.active():
                 wd.cancel()
@@ -359,6 +440,11 @@ class _H:
         def fail(sig, detail):
             ctx.violation(sig, case, f"[{rk}/{sc}] {detail}; sender={vars(S)} receiver={vars(R)} written={self.written}")
 
+        if self.stall is not None:
+            fail("stalled-with-undelivered-bytes-and-no-writer",
+                 f"the {self.stall['writer']} wrote {self.stall['written']} bytes, its peer has received {self.stall['received']}; "
+                 "both protocols are connected, no application action is pending, both kernel queues of that direction are "
+                 "empty, the reader is registered with the reactor but the writer is not: the rest can never be sent")
         for name, L in (("sender", S), ("receiver", R)):
             if L.made != 1:
                 fail("connectionmade-count", f"{name}: connectionMade called {L.made} times")
@@ -400,6 +486,24 @@ class _H:
                 fail("writeconnectionlost-count", f"sender (IHalfCloseableProtocol) writeConnectionLost called {S.wcl} times")
             if S.lost[0] is not done or R.lost[0] is not done:
                 fail("orderly-close-not-connectiondone", f"reasons sender={S.lost[0].__name__} receiver={R.lost[0].__name__}")
+        elif sc == "duplex-half":
+            if case["tx_half_iface"] and case["rx_half_iface"]:
+                # both keep their sending direction open after the peer's FIN: both streams complete
+                if R.got != self.written:
+                    fail("half-close-truncated", f"receiver got {R.got} of {self.written} bytes")
+                if S.got != self.reply_written:
+                    fail("duplex-stream-truncated-after-peer-fin",
+                         f"sender got {S.got} of the {self.reply_written} bytes the receiver had queued before it saw the sender's FIN")
+                for name, L, all_ in (("sender", S, self.reply_written), ("receiver", R, self.written)):
+                    if L.rcl != 1 or L.wcl != 1:
+                        fail("halfclose-notification-count", f"{name}: readConnectionLost x{L.rcl}, writeConnectionLost x{L.wcl}")
+                    if L.rcl_at != all_:
+                        fail("readconnectionlost-before-all-data", f"{name}: readConnectionLost after {L.rcl_at} of {all_} bytes")
+                if S.lost[0] is not done or R.lost[0] is not done:
+                    fail("orderly-close-not-connectiondone", f"reasons sender={S.lost[0].__name__} receiver={R.lost[0].__name__}")
+                ctx.count("duplex half-close with both streams complete")
+                if min(self.written, self.reply_written) > 200000:
+                    ctx.count("duplex half-close with both streams > 200 kB")
         elif sc == "sender-abort":
             if S.lost[0] is not error.ConnectionAborted:
                 fail("abort-reason", f"aborting side got {S.lost[0].__name__}")
@@ -418,6 +522,11 @@ class _H:
                 fail("abort-reason", f"aborting side got {R.lost[0].__name__}")
         # bookkeeping
         ctx.count(f"reactor={rk}")
+        ctx.count("idle probes", self.probes)
+        if self.queued_behind_aligned:
+            ctx.count("write queued behind an unsent remainder of k x SEND_LIMIT (white-box bookkeeping)")
+            if sc in ("sender-lose", "sender-half", "duplex-half"):
+                ctx.count("... with a close / half-close following")
         ctx.count(f"scenario={sc}")
         ctx.count(f"reason sender={S.lost[0].__name__}")
         ctx.count(f"reason receiver={R.lost[0].__name__}")
@@ -430,6 +539,10 @@ class _H:
         if sc in ("sender-abort", "receiver-lose-early", "receiver-abort-early") and R.got < self.written:
             ctx.count("receiver got a proper prefix")
         ctx.extra["bytes_transferred"] = ctx.extra.get("bytes_transferred", 0) + R.got + S.got
+
+
+def _ioctl_int(sock, req):
+    return struct.unpack("i", fcntl.ioctl(sock.fileno(), req, b"\0\0\0\0"))[0]
 
 
 def _watchdog_seconds(ctx):
@@ -465,6 +578,12 @@ def _matrix():
         dict(steps=[["w", 300000], ["ws", [1, 70000, 0, 5]], ["delay", 2], ["w", 40000]], rx_pause=[1, 5], early=50000),
         dict(steps=[["ws", [200000, 200000]], ["w", 1]], sender_is_client=False, sndbuf=0, rcvbuf=0,
              tx_half_iface=False, rx_half_iface=False, early=100, abort_delay=3, reply=[]),
+        # whole SEND_LIMIT passes through a roomy socket buffer, a later write lands
+        # between two passes (each zero delay = one reactor iteration)
+        dict(steps=[["w", 3 * SEND_LIMIT], ["delay", 0], ["delay", 0], ["w", 1000]], sndbuf=1 << 20, rcvbuf=1 << 20,
+             early=SEND_LIMIT, reply=[SEND_LIMIT, 77]),
+        # the other side has far more queued than one pass can send
+        dict(steps=[["w", 10]], sndbuf=8192, rcvbuf=65536, reply=[700000, 5], sender_is_client=False),
     ]
     for rk in REACTORS:
         for sc in SCENARIOS:
@@ -473,15 +592,16 @@ def _matrix():
 
 
 def _strategy(rk, max_exp):
-    size = st.one_of(st.sampled_from([0, 1, 2, 4095, 4096, 4097, 65535, 65536, 65537, 131072, 131073]),
+    size = st.one_of(st.sampled_from([0, 1, 2, 4095, 4096, 4097, 65535, 65536, 65537, 131071, 131072, 131073]),
+                     st.integers(1, 4).map(lambda k: k * SEND_LIMIT),
                      st.integers(0, max_exp).flatmap(lambda e: st.integers(0, 1 << e)))
     step = st.one_of(
         st.tuples(st.just("w"), size),
         st.tuples(st.just("w"), size),
         st.tuples(st.just("ws"), st.lists(size, max_size=4)),
-        st.tuples(st.just("delay"), st.sampled_from([0, 0, 1, 3])),
+        st.tuples(st.just("delay"), st.sampled_from([0, 0, 0, 0, 1, 3])),
     ).map(list)
-    sndbuf = st.sampled_from([0, 2048, 4096, 4096, 16384, 65536])
+    sndbuf = st.sampled_from([0, 2048, 4096, 4096, 16384, 65536, 1 << 20, 1 << 20])
     # a receive buffer below ~16 KiB makes Linux loopback fall back on persist
     # timers (seconds per case); partial writes come from the small SO_SNDBUF
     rcvbuf = st.sampled_from([0, 0, 65536, 32768, 16384])
@@ -496,7 +616,7 @@ def _strategy(rk, max_exp):
         abort_delay=st.sampled_from([-1, 0, 1, 5]),
         early=st.integers(0, 200000),
         rx_pause=st.one_of(st.none(), st.tuples(st.integers(0, 100000), st.sampled_from([0, 1, 5])).map(list)),
-        reply=st.lists(st.integers(0, 20000), max_size=3),
+        reply=st.lists(st.one_of(st.integers(0, 20000), size), max_size=3),
         tx_half_iface=st.booleans(), rx_half_iface=st.booleans(),
         linger=st.sampled_from([0, 0, 2]),
     )
